@@ -42,6 +42,11 @@ CLAIMS = {
         "Decides structural necessary conditions only: re-validation after every callback unless the state is already terminal, terminal-before-wake, extraction-is-last, clone-before-cell, revert-before-drop with a fresh read, release discipline, waker balance, cell typestate table. The tree of nested callback programs is not explored.",
         "Trusted: rustc nightly MIR, factgen extraction, the user-code classification, the cell/typestate tables in vf/props/c07.py restating core/state.rs and docs/callback-safety.md.",
         "DESIGN.md section 3, C07"),
+    "C12": (
+        "guard-liveness x user-code classification over the linked crate (incl. closures run under LocalKey::with_borrow*), call-graph reachability of thread::current() from Drop of Send reference types (Send decided by the trait matrix of a probe crate), guard liveness at the reference-count test, entry()/insert discipline on the registries",
+        "Decides structural necessary conditions only: no user code under a registry lock / thread-local registry borrow (first access with nested linked variables terminates), per-thread cleanup of Send references keyed by origin and decided under the lock, confinement witnesses, create-outside/insert-under-lock with occupied re-check, first registration wins. Two defects found by R1 on the pinned tree were genuine, reproduced and repaired by two fix: commits; R2/R3 on RefSync are genuine, reproduced and recorded as known findings (repair is a design change). Exactly-one-family under all racing first accesses is not decided.",
+        "Trusted: rustc nightly MIR and trait solver, factgen extraction, user-code classification with the benign tables in vf/props/c12.py.",
+        "DESIGN.md section 3, C12"),
     "C17": (
         "MIR rules: detection of lifetime-erasing transmutes (source = target after region erasure), exit analysis over both return and unwind edges (must-pass-through of a drain-guard Drop on every unwind path from a panicking call after the first cross-thread hand-off; returns only behind the collection loop's exhaustion), loop/dominance shape of the per-thread closure, backward slices for barrier size and group indexes",
         "Decides structural necessary conditions only: the scope obligation created by the lifetime-erasing transmute (no return or unwind before all result channels are drained), the call-count shape of the per-thread closure, barrier/grouping provenance. The violation found on the pinned tree (panicking expect inside the collection/dispatch loops) was a genuine, reproduced use-after-return and is repaired by a fix: commit. Numeric iteration counts for all inputs are not decided.",
